@@ -36,6 +36,13 @@ CHECKS = {
                      "ratios are compared with single-point runs; every sequence with its negation.",
                 note="Reference in mc/refs/hcm_nonlinear.py is trusted as the reading of the guideline procedure (index-based Clormann-Seeger memory rules).",
                 ref="3 C05"),
+    "C20": dict(cat="model_checking", tech="explicit-state BFS over exporter call histories (incl. failing calls) on real HDF5 files, dict reference model, twin comparison for failed calls",
+                text="All sequences of exporter events (add_geometry for 11-14 small meshes in id/row-order variants, duplicate and unsupported calls that must raise, "
+                     "node/element sets valid and with foreign ids, NODE / ELEMENT_NODAL variables, second state, bad column) to depth 3 (quick) / 4 (thorough) are "
+                     "replayed on fresh files; every reached state is compared with a dict reference through the real importer (round trip, node order, element order, "
+                     "repeatable import, set filters), and every failing call must leave the content unchanged and must not change the outcome of any later call.",
+                note="State key = canonical dump of /VMAP/GEOMETRY, /VMAP/VARIABLES, SYSTEM names and exporter attributes; h5py trusted; bounded depth and mesh menu.",
+                ref="3 C20"),
 }
 
 NOT_APPLICABLE = []
